@@ -180,7 +180,9 @@ class _DocProxy:
 
     def clear(self):
         """Clear proxy data."""
-        self.doc.clear()
+        logger.more("Clear document.")
+        if not self.dry_run:
+            self.doc.clear()
 
     def update(self, other):
         """Update proxy data with other."""
